@@ -77,8 +77,10 @@ func (x *mapInst) Cfg() Ev {
 // which balanced tree carries the comparator work (C07)
 func treeKind(kind string) string {
 	switch kind {
-	case "redblacktree", "treemap", "treebidimap":
+	case "redblacktree", "treemap":
 		return "rb"
+	case "treebidimap":
+		return "rb6" // one Put is up to six operations on its two red-black trees
 	case "avltree":
 		return "avl"
 	case "btree":
